@@ -115,8 +115,9 @@ SRC_SPECS = [
          state=['self._mu_quads', 'self._wi_quads']),
 ]
 
-USES_MODELS = ['C04', 'C20']      # Interp.computeOpacity: the table look-up behind every layer's opacity; KTau.emissionK: the
-#                                   emission integral of the correlated-k opacity mode
+USES_MODELS = ['C04', 'C20', 'C01']      # Interp.computeOpacity: the table look-up behind every layer's opacity; KTau.emissionK: the
+#                                   emission integral of the correlated-k opacity mode; AbsorptionGrid.scaledSigma (driver_c01): the
+#                                   Rayleigh cross-section law(wn) x abundance of the layer, summed over the molecules
 
 RULE = ('real EmissionModel/DirectImageModel, 1-40 layers, 1-12 wavenumbers, ngauss 1-8, temperature profile in '
         '{isothermal, decreasing, inverted, random, two-level}, 1-3 active gases with in-memory tables whose magnitude '
@@ -140,7 +141,15 @@ RULE = ('real EmissionModel/DirectImageModel, 1-40 layers, 1-12 wavenumbers, nga
         'where A and B clip the native grid to the same number of points at different wavenumbers; every answer judged like a '
         'fresh run on the restricted tables), switch (one object evaluated, GlobalCache opacity_method switched xsec <-> ktables, '
         'evaluated again, three evaluations; cross-section evaluations judged against Emission, k-table ones against '
-        'KTau.emissionK)')
+        'KTau.emissionK); plus a zero-abundance stream (atmospheres in which an absorbing trace gas and an added scatter-only '
+        'gas N2 / O2 at 5-40 % have abundance profiles that are EXACTLY zero in some layers and not in others - zero aloft / below / '
+        'in one layer / in scattered layers -, Rayleigh scattering among the contributions, wavenumbers 5000-30000 cm-1, surface '
+        'pressure 10^5.5-10^7 Pa; the Rayleigh cross-section is rebuilt from the per-molecule laws and the abundances of each layer '
+        'by AbsorptionGrid.scaledSigma (driver_c01), compared with the prepared contribution, and enters the documented integral); '
+        'plus an explicit-quadrature stream (set_quadratures: ONE pair of caller-owned Gauss-Legendre node / weight arrays, 1-8 '
+        'nodes, handed to two model objects in turn / twice to one object / to both objects before either is evaluated / as fresh '
+        'copies, then set_num_gauss again; the nodes and weights every object holds judged against Emission.muOf / wOf (op '
+        'c02.quad) of the rule as the caller supplied it, every spectrum against Emission and the documented integral on that rule)')
 ASSUMPTIONS = ['the opacity of a layer is the tabulated cross-section at the layer (T, P) - bilinear in (T, log10 P), held at the '
                'nearest edge node outside the table, zero below both minima (the statement of C04, model Interp.computeOpacity '
                'served by driver_c04) - times the mixing ratio, summed over the active gases (all tables of a case share the '
@@ -533,7 +542,10 @@ def tables_check(ctx, c, o, small, kp=''):
     property on the real code: the spectrum equals the documented integral evaluated on the opacities the TABLES give
     (independent numpy look-up), within the licensed clamp band"""
     tables = c.get('tables') or {}
-    ab = [sg for kd, sg in o['contribs'] if kd == 0]
+    # (`absorption_index`: position of the molecular absorption in o['contribs'] when other contributions of the same kind -
+    # Rayleigh scattering - are in the list; absent: the molecular absorption is the only one of its kind)
+    ai = o.get('absorption_index')
+    ab = [sg for kd, sg in o['contribs'] if kd == 0] if ai is None else [o['contribs'][ai][1]]
     if not ab or any(g not in tables for g in o['active']) or len(o['grid']) != len(c['wn']):
         ctx.bucket('table-lookup:not-applicable')
         return
@@ -573,7 +585,10 @@ def tables_check(ctx, c, o, small, kp=''):
     # the property's statement on the real code: documented integral over the TABLE opacities
     kind = c['kind']
     nus = o['grid']
-    contribs = [(0, sig_doc)] + [(kd, sg) for kd, sg in o['contribs'] if kd != 0]
+    if ai is None:
+        contribs = [(0, sig_doc)] + [(kd, sg) for kd, sg in o['contribs'] if kd != 0]
+    else:
+        contribs = [(0, sig_doc) if j == ai else ks for j, ks in enumerate(o['contribs'])]
     el = E.layer_elements(contribs, o['dz'], o['dens'])
     ref = E.ref_emission(nus, el, o['T'], o['mu_quads'], o['wi_quads'], clamp=10.0)
     if kind == 'emission':
@@ -1313,6 +1328,241 @@ def run_switch(ctx):
         shutil.rmtree(scratch, ignore_errors=True)
 
 
+# ------------------------------------------------------------------------------------------- abundances that are exactly zero somewhere
+# A species confined below a cold trap, a chemistry table with zeros aloft, a detached layer: the abundance profile of a gas
+# is EXACTLY zero in some layers and not in others.  "Whatever its composition": the molecular absorption and the Rayleigh
+# scattering of every layer are the cross-section / the law times the abundance OF THAT LAYER.  The Rayleigh cross-section
+# is rebuilt without the contribution object (per-molecule law x published abundance row, AbsorptionGrid.scaledSigma served by
+# driver_c01) and substituted in the documented integral.
+ZERO_PATTERNS = ['zero-aloft', 'zero-below', 'zero-in-one-layer', 'zero-aloft', 'zero-in-scattered-layers']
+SCATTER_ONLY = ['N2', 'O2']          # molecules with a Rayleigh law and no opacity table in these runs: never active
+
+
+def zero_mask(rng, nl, pattern):
+    z = np.zeros(nl, bool)
+    if pattern == 'zero-aloft':
+        z[int(rng.integers(1, nl)):] = True
+    elif pattern == 'zero-below':
+        z[:int(rng.integers(1, nl))] = True
+    elif pattern == 'zero-in-one-layer':
+        z[int(rng.integers(0, nl))] = True
+    else:
+        z = rng.random(nl) < 0.4
+        z[int(rng.integers(0, nl))] = True
+        z[(int(np.argmax(z)) + 1) % nl] = False
+    return z
+
+
+def zero_pattern(mix):
+    """class of an abundance profile by where it is EXACTLY zero"""
+    z = np.asarray(mix) == 0.0
+    if not z.any():
+        return 'nowhere-zero'
+    if z.all():
+        return 'zero-everywhere'
+    if not z[0] and z[-1] and np.all(np.diff(z.astype(int)) >= 0):
+        return 'zero-aloft'
+    if z[0] and not z[-1] and np.all(np.diff(z.astype(int)) <= 0):
+        return 'zero-below'
+    return 'zero-in-scattered-layers' if z.sum() > 1 else 'zero-in-one-layer'
+
+
+def build_profiles_model(kind, spec):
+    """like em_common.build_model with an explicit contribution list (`spec['contribs']`), for a composition in which a gas may
+    be given as one abundance PER LAYER (`spec['gases'][name]` a sequence: ArrayGas) instead of a constant"""
+    from taurex.data import Planet
+    from taurex.data.stellar import BlackbodyStar
+    from taurex.data.profiles.temperature import Isothermal
+    from taurex.data.profiles.temperature.temparray import TemperatureArray
+    from taurex.data.profiles.chemistry import TaurexChemistry, ConstantGas
+    from taurex.data.profiles.chemistry.gas.arraygas import ArrayGas
+    from taurex.contributions import AbsorptionContribution, CIAContribution, RayleighContribution
+    from taurex.model import EmissionModel, DirectImageModel
+    T = spec['T']
+    tp = Isothermal(T=float(T)) if np.ndim(T) == 0 else TemperatureArray(tp_array=np.asarray(T, float))
+    chem = TaurexChemistry(fill_gases=['H2', 'He'], ratio=spec.get('ratio', 0.17))
+    for g, mix in spec['gases'].items():
+        chem.addGas(ConstantGas(g, mix_ratio=float(mix)) if np.ndim(mix) == 0 else
+                    ArrayGas(g, mix_ratio_array=np.asarray(mix, float)))
+    cls = DirectImageModel if kind == 'direct' else EmissionModel
+    m = cls(planet=Planet(planet_mass=spec['mp'], planet_radius=spec['rp']),
+            star=BlackbodyStar(temperature=spec['ts'], radius=spec['rs'], distance=spec.get('dist', 1.0)),
+            temperature_profile=tp, chemistry=chem, nlayers=int(spec['nlayers']), atm_min_pressure=spec['pmin'],
+            atm_max_pressure=spec['pmax'], ngauss=int(spec.get('ngauss', 4)))
+    for name in spec['contribs']:
+        m.add_contribution(AbsorptionContribution() if name == 'absorption' else RayleighContribution() if name == 'rayleigh'
+                           else CIAContribution(cia_pairs=list(spec['cia'])))
+    m.build()
+    return m
+
+
+def gen_zero_case(rng, k):
+    c = None
+    # temperature classes cycle (isothermal last); table magnitude at most of the order of the scattering
+    kk = 5 * [1, 0, 2, 1][(k // 5) % 4] + [1, 2, 3, 4, 0][k % 5]
+    while c is None or c['spec']['nlayers'] < 3:
+        c = gen_case(rng, kk)
+    c.pop('wn_dtype', None)
+    spec = c['spec']
+    nl = spec['nlayers']
+    c['wn'] = np.sort(rng.choice(np.arange(5000.0, 30000.0, 7.0), size=len(c['wn']), replace=False))
+    spec['pmax'] = float(10 ** rng.uniform(5.5, 7))
+    pattern = ZERO_PATTERNS[k % len(ZERO_PATTERNS)]
+    g = sorted(spec['gases'])[int(rng.integers(0, len(spec['gases'])))]
+    prof = 10 ** rng.uniform(-6, -2, size=nl)
+    prof[zero_mask(rng, nl, pattern)] = 0.0
+    spec['gases'][g] = prof
+    prof2 = rng.uniform(0.05, 0.4, size=nl)
+    prof2[zero_mask(rng, nl, pattern)] = 0.0
+    spec['gases'][SCATTER_ONLY[int(rng.integers(0, 2))]] = prof2
+    spec['contribs'] = [['absorption', 'rayleigh'], ['rayleigh', 'absorption']][(k // 2) % 2] + (['cia'] if c.get('cia') else [])
+    c['kind'] = 'direct' if k % 6 == 5 else 'emission'
+    c['zero_layers'] = pattern
+    return c
+
+
+def zero_layers_case(ctx, c):
+    from taurex.util.scattering import rayleigh_sigma_from_name
+    spec, kind = c['spec'], c['kind']
+    small = dict(kind=kind, nlayers=spec['nlayers'], ngauss=spec['ngauss'], tclass=c.get('tclass'), regime=c.get('regime'),
+                 cia=bool(c.get('cia')), nwn=len(c['wn']), zero_layers=c.get('zero_layers'))
+    with E.CacheState():
+        install(c)
+        try:
+            m = build_profiles_model(kind, spec)
+            o = observe(m)
+            types = [type(x).__name__ for x in m.contribution_list]
+            chem = m.chemistry
+            act, ina = [str(x) for x in chem.activeGases], [str(x) for x in chem.inactiveGases]
+            # abundances as the atmosphere holds them: the rows of the chemistry's published tables
+            rows = {g: np.array(chem.activeGasMixProfile[i], float) for i, g in enumerate(act)}
+            rows.update({g: np.array(chem.inactiveGasMixProfile[i], float) for i, g in enumerate(ina)})
+        except Exception as e:
+            ctx.violation('zero-layers:raises:' + kind, 'forward model raised %r on a valid atmosphere' % (e,), dict(c, small=small))
+            return
+    nus, n = o['grid'], len(o['T'])
+    if len(types) != len(o['contribs']) or 'RayleighContribution' not in types:
+        ctx.mismatch('zero-layers: contribution list as built', dict(c, small=small), dict(types=types))
+        return
+    mols = [(g, np.asarray(rayleigh_sigma_from_name(g, nus), float), rows[g]) for g in act + ina
+            if rayleigh_sigma_from_name(g, nus) is not None]
+    d = ctx.model('C01').call('c01.scaledsigma', C.N(n), C.N(len(nus)), C.LL([x[1] for x in mols]), C.LL([x[2] for x in mols]))
+    doc = np.array(d.list(lambda: d.list()), float).reshape(n, len(nus))
+    i = types.index('RayleighContribution')
+    impl = o['contribs'][i][1]
+    ctx.disagreements_checked += 1
+    sc = float(np.max(np.abs(doc))) if doc.size else 0.0
+    if impl.shape != doc.shape or not C.close(np.ravel(impl), np.ravel(doc), rel=1e-9, abs_=1e-15 * sc):
+        ctx.mismatch('RayleighContribution.sigma_xsec vs AbsorptionGrid.scaledSigma (law x abundance of the layer)',
+                     dict(c, small=small), dict(impl=impl[:, :1], model=doc[:, :1], molecules=[x[0] for x in mols],
+                                                profiles=[zero_pattern(x[2]) for x in mols]))
+    for g, _, mx in mols:
+        ctx.bucket('zero-layers:rayleigh-gas-profile:' + zero_pattern(mx))
+    for g in act:
+        ctx.bucket('zero-layers:absorbing-gas-profile:' + zero_pattern(rows[g]))
+    rtau = (doc * (o['dz'] * o['dens'])[:, None]).sum(axis=0)
+    ctx.bucket('zero-layers:rayleigh-optical-depth:' + ('0.001-30-somewhere' if np.any((rtau > 1e-3) & (rtau < 30)) else 'elsewhere'))
+    ctx.bucket('quota:abundance-zero-in-some-layers:' + str(c.get('zero_layers')))
+    # the documented integral with the cross-sections the property names: the Rayleigh one rebuilt above
+    o2 = dict(o, contribs=[(kd, doc if j == i else sg) for j, (kd, sg) in enumerate(o['contribs'])],
+              absorption_index=types.index('AbsorptionContribution'))
+    judge(ctx, c, o2, small, kp='zero-layers:')
+
+
+def run_zero_layers(ctx):
+    for k in range(ctx.n(40, 400)):
+        zero_layers_case(ctx, gen_zero_case(ctx.rng, k))
+
+
+# ------------------------------------------------------------------------------------------- explicit quadrature rule
+# `set_quadratures(mu, weight)`: the caller supplies the Gauss-Legendre nodes / weights on [-1, 1] (the arrays stay the
+# caller's: typically ONE leggauss(n) result handed to every model of a comparison, or handed again after a change).  Whatever
+# the history of such calls, every model integrates over emission angle with the rule mapped to [0, 1] once: nodes (x+1)/2,
+# weights w/2 (Emission.muOf / wOf).
+QUAD_HISTORIES = ['two-models-in-turn', 'same-model-twice', 'two-models-then-evaluate', 'fresh-copies-then-set_num_gauss']
+
+
+def quadrature_case(ctx, c):
+    spec, kind = c['spec'], c['kind']
+    h = c['history']
+    n, pattern = int(h['nodes']), h['pattern']
+    x0, w0 = np.polynomial.legendre.leggauss(n)
+    d = ctx.model().call('c02.quad', C.L(x0), C.L(w0))
+    mmu, mwi = np.array(d.list()), np.array(d.list())
+    base_small = dict(kind=kind, nlayers=spec['nlayers'], ngauss=spec['ngauss'], tclass=c.get('tclass'), regime=c.get('regime'),
+                      cia=bool(c.get('cia')), nwn=len(c['wn']), explicit_nodes=n, pattern=pattern)
+    x, w = x0.copy(), w0.copy()              # the caller's arrays
+    native = {kk: v for kk, v in c.items() if kk not in ('history', 'native', 'small')}
+    with E.CacheState():
+        install(c)
+        try:
+            A = E.build_model(kind, dict(spec))
+            B = E.build_model(kind, dict(spec))
+        except Exception as e:
+            ctx.violation('raises:' + kind, 'forward model raised %r on a valid atmosphere' % (e,), c)
+            return
+        if pattern == 'two-models-in-turn':
+            steps = [('set', A), ('eval', A), ('set', B), ('eval', B), ('eval', A)]
+        elif pattern == 'same-model-twice':
+            steps = [('set', A), ('eval', A), ('set', A), ('eval', A)]
+        elif pattern == 'two-models-then-evaluate':
+            steps = [('set', A), ('set', B), ('eval', A), ('eval', B)]
+        else:
+            steps = [('set-copy', A), ('eval', A), ('set-copy', A), ('eval', A), ('num', A), ('eval', A)]
+        nq = {id(A): spec['ngauss'], id(B): spec['ngauss']}
+        for step, (what, m) in enumerate(steps):
+            small = dict(base_small, step=step, object='A' if m is A else 'B')
+            try:
+                if what == 'set':
+                    m.set_quadratures(x, w)
+                    nq[id(m)] = n
+                elif what == 'set-copy':
+                    m.set_quadratures(x0.copy(), w0.copy())
+                    nq[id(m)] = n
+                elif what == 'num':
+                    m.set_num_gauss(spec['ngauss'])
+                    nq[id(m)] = spec['ngauss']
+                else:
+                    o = observe(m)
+            except Exception as e:
+                ctx.violation('quadrature-history:raises:' + kind, '%s raised %r' % (what, e), dict(c, small=small))
+                return
+            if what != 'eval':
+                continue
+            k = nq[id(m)]
+            if k == n:
+                emu, ewi = mmu, mwi
+            else:
+                xs, ws = np.polynomial.legendre.leggauss(k)
+                d = ctx.model().call('c02.quad', C.L(xs), C.L(ws))
+                emu, ewi = np.array(d.list()), np.array(d.list())
+            case = dict(c, spec=dict(spec, ngauss=k), history=dict(h, step=step), small=small, native=native)
+            ctx.bucket('quadrature-history:%s:evaluation-%d' % (pattern, sum(1 for s in steps[:step] if s[0] == 'eval')))
+            ctx.check_close('_mu_quads after set_quadratures / set_num_gauss vs Emission.muOf of the rule supplied', o['mu_quads'], emu,
+                            case, rel=1e-13)
+            ctx.check_close('_wi_quads after set_quadratures / set_num_gauss vs Emission.wOf of the rule supplied', o['wi_quads'], ewi,
+                            case, rel=1e-13)
+            xs, ws = np.polynomial.legendre.leggauss(k)
+            if o['mu_quads'].shape != xs.shape or not C.close(o['mu_quads'], (xs + 1) / 2, rel=1e-13) or \
+                    not C.close(o['wi_quads'], ws / 2, rel=1e-13):
+                ctx.violation('quadrature-history:nodes:' + kind, 'the emission angles / weights the model integrates with are not '
+                              'the supplied Gauss-Legendre rule mapped to [0, 1] ((x+1)/2, w/2)', case,
+                              dict(mu_quads=o['mu_quads'], wi_quads=o['wi_quads'], expected_mu=(xs + 1) / 2, expected_w=ws / 2))
+            # the spectrum, judged on the rule as supplied (not on what the object holds)
+            judge(ctx, case, dict(o, mu_quads=(xs + 1) / 2, wi_quads=ws / 2), small, kp='quadrature-history:')
+    ctx.bucket('quadrature-history:' + pattern)
+    ctx.bucket('quadrature-history:nodes-%s-constructor-ngauss' % ('equal-to' if n == spec['ngauss'] else 'differ-from'))
+
+
+def run_quadrature(ctx):
+    rng = ctx.rng
+    for k in range(ctx.n(24, 240)):
+        c = gen_case(rng, k, thorough=False)
+        c.pop('wn_dtype', None)
+        c['history'] = dict(type='quadrature', nodes=int(rng.integers(1, 9)), pattern=QUAD_HISTORIES[k % len(QUAD_HISTORIES)])
+        quadrature_case(ctx, c)
+
+
 def run(ctx):
     validate_leggauss(ctx)
     validate_planck(ctx)
@@ -1325,6 +1575,8 @@ def run(ctx):
     run_breakdown(ctx)
     run_regrid(ctx)
     run_switch(ctx)
+    run_zero_layers(ctx)
+    run_quadrature(ctx)
     malformed(ctx)
 
 
@@ -1337,7 +1589,9 @@ def replay(ctx, case):
         hist = dict(hist)
         hist.pop('step', None)
         case = dict(case.pop('native', case), history=hist)
-        if hist['type'] == 'breakdown':
+        if hist['type'] == 'quadrature':
+            quadrature_case(ctx, case)
+        elif hist['type'] == 'breakdown':
             breakdown_case(ctx, case)
         elif hist['type'] == 'regrid':
             regrid_case(ctx, case)
@@ -1349,6 +1603,9 @@ def replay(ctx, case):
                 switch_case(ctx, case, scratch)
             finally:
                 shutil.rmtree(scratch, ignore_errors=True)
+        return
+    if case.get('zero_layers'):
+        zero_layers_case(ctx, case)
         return
     if case.get('mode') == 'ktables':
         import shutil
